@@ -111,7 +111,7 @@ func VH_C03() {
 	vstub.Assert("c03.dec.decode.err", err == nil)
 	vstub.Assert("c03.dec.decode.eq", vEq_Rec(v, w2))
 	vstub.Assert("c03.dec.decode.pos", fr.Pos == len(ref2))
-	var w3 REC
+	var w3 REC //MUST
 	w3.MustUnmarshalBebop(ref2) //MUST
 	vstub.Assert("c03.dec.must.eq", vEq_Rec(v, w3)) //MUST
 	vstub.Reach("c03")
